@@ -207,7 +207,9 @@ func main() {
 				sh.mu.Lock()
 				sh.Queries += solver.Queries
 				sh.SolverTime += solver.Time
-				if false { fmt.Fprintf(os.Stderr, "solver: prep %v check %v model %v total %v\n", solver.TPrep, solver.TCheck, solver.TModel, solver.Time) }
+				if false {
+					fmt.Fprintf(os.Stderr, "solver: prep %v check %v model %v total %v\n", solver.TPrep, solver.TCheck, solver.TModel, solver.Time)
+				}
 				sh.mu.Unlock()
 				solver.Close()
 			}()
